@@ -297,7 +297,9 @@ PLAN = {
               dict(harness="c05.policy", bound=1)],
     "thorough": [dict(harness="c05.sweep", bound=1),
                  dict(harness="c05.sched", bound=3),
-                 dict(harness="c05.sched.lines", bound=2, select=lambda p: len(p["scripts"]) == 1 or p.get("stagger") in (1.0, 3.0)),
-                 dict(harness="c05.twoworkers.lines", bound=2),
+                 dict(harness="c05.sched.lines", bound=1),
+                 dict(harness="c05.sched.lines", bound=2, select=lambda p: len(p["scripts"]) == 1 or p.get("stagger") == 1.0),
+                 dict(harness="c05.twoworkers.lines", bound=1),
+                 dict(harness="c05.twoworkers.lines", bound=2, select=lambda p: p["scripts"] in ((("ok",), ("ok",)), (("ok",), ("E", "ok")))),
                  dict(harness="c05.policy", bound=2)],
 }
